@@ -240,6 +240,10 @@ def classify(res):
     break in its target or new text)."""
     if res["case"].get("stream") == "cell_edges":
         return "F-diff-cell-edge"
+    # (same finding, marker variant: words inserted on both sides of a bold / italic marker; the word-level diff then
+    # aligns on the marker itself and a computed edit has nothing but marker characters as its target)
+    if any((e[1] or "") and not (e[1] or "").replace("*", "").replace("_", "").strip() for e in res.get("edits", [])):
+        return "F-diff-cell-edge"
     if any("\n" in (e[1] or "") or "\n" in (e[2] or "") for e in res.get("edits", [])):
         return "F-diff-crosses-paragraph"
     return None
